@@ -54,6 +54,7 @@ type check struct {
 	nB       int64 // anonymous boxes: property
 	nC       int64 // absolutisation: property
 	nD       int64 // real UA sheet document: presentational hints off / on
+	nE       int64 // box building preserves the element styles: property
 
 	emptyUA tree.CSS
 	haveUA  bool
@@ -138,7 +139,7 @@ func (c *check) Init(tier string, seed int64) engine.Space {
 		c.props = l
 	}
 	n := int64(len(c.props))
-	c.nA, c.nB, c.nC, c.nD = n*nPos, n, n, 2
+	c.nA, c.nB, c.nC, c.nD, c.nE = n*nPos, n, n, 2, n
 	c.tcs = map[string]*textCtx{}
 	c.rootRef = map[string]string{}
 	nctx := 2
@@ -146,8 +147,8 @@ func (c *check) Init(tier string, seed int64) engine.Space {
 		nctx = 3
 	}
 	return engine.Space{
-		Units: c.nA + c.nB + c.nC + c.nD, Chunk: 2, Level: "model_checking",
-		Rule: "four index-addressable blocks. (A) one unit per (position, property): every declared state {none, inherit, initial, specification initial value, explicit values} × parent {none, explicit} × dependency context, each evaluated on a fresh style set under all 6 orders of the access set {p on the element, p on the parent (child for the root), dependency q on the element} for each listed dependency, plus full sweeps Get(all); a case (= one document) is non-trivial when the relational clause of its state was actually compared. (B) one unit per property: every anonymous box of a document that generates anonymous block, line and text boxes, the anonymous table parts around a lone cell, anonymous flex and grid items and the text of a ::before (the boxes of a ::marker are not anonymous boxes and are left out). (C) one unit per property: every length template the validator accepts × position × unit, plus one rule shared by two elements. (D) two units: Get(all) in two sweep orders on every element, pseudo-element, page and margin-box style of a document with one element of every kind, under the real user-agent sheet, presentational hints off/on",
+		Units: c.nA + c.nB + c.nC + c.nD + c.nE, Chunk: 2, Level: "model_checking",
+		Rule: "five index-addressable blocks. (A) one unit per (position, property): every declared state {none, inherit, initial, specification initial value, explicit values} × parent {none, explicit} × dependency context, each evaluated on a fresh style set under all 6 orders of the access set {p on the element, p on the parent (child for the root), dependency q on the element} for each listed dependency, plus full sweeps Get(all); a case (= one document) is non-trivial when the relational clause of its state was actually compared. (B) one unit per property: every anonymous box of a document that generates anonymous block, line and text boxes, the anonymous table parts around a lone cell, anonymous flex and grid items and the text of a ::before (the boxes of a ::marker are not anonymous boxes and are left out). (C) one unit per property: every length template the validator accepts × position × unit, plus one rule shared by two elements, plus every ordered pair of font-relative units on two users of one document (siblings, parent and child, two properties of one element; both read orders). (D) two units: Get(all) in two sweep orders on every element, pseudo-element, page and margin-box style of a document with one element of every kind, under the real user-agent sheet, presentational hints off/on. (E) one unit per property: a container of every display whose boxes the box builder wraps or completes, with an explicit value of the property, and children of every kind (block child, caption, row, cell, ::before) declaring inherit; every property of every element is read before box building, again after it, and (on a fresh style set) only after it",
 		Bounds: map[string]any{
 			"properties": n, "positions": posNames[:], "contexts": ctxNames[:nctx], "dependencies": c.deps(),
 			"access_orders": len(orders), "max_explicit_values": map[string]int{"quick": 1, "thorough": maxValues}[tier],
@@ -256,6 +257,22 @@ func inherited(p *propInfo) (inh bool, classified bool) {
 
 // ---- units ---------------------------------------------------------------------------------
 
+// locate maps a unit index to its block and the index inside the block. The cheap blocks come
+// first (simplest first): a run cut by its deadline loses the tail of the big product (A),
+// not a whole block.
+func (c *check) locate(u int64) (block byte, i int64) {
+	for _, b := range []struct {
+		name byte
+		n    int64
+	}{{'D', c.nD}, {'C', c.nC}, {'E', c.nE}, {'B', c.nB}, {'A', c.nA}} {
+		if u < b.n {
+			return b.name, u
+		}
+		u -= b.n
+	}
+	return 0, 0
+}
+
 func (c *check) Run(u int64, ctx *engine.Ctx) {
 	if !c.haveUA {
 		c.haveUA = true
@@ -264,40 +281,42 @@ func (c *check) Run(u int64, ctx *engine.Ctx) {
 		})
 	}
 	n := int64(len(c.props))
-	switch {
-	case u < c.nA:
-		pos, p := int(u/n), c.props[u%n]
-		c.search(p)
-		c.runDefaulting(ctx, pos, p)
-	case u < c.nA+c.nB:
-		p := c.props[u-c.nA]
-		c.search(p)
+	block, i := c.locate(u)
+	if block == 'D' {
+		c.runSink(ctx, i == 1)
+		return
+	}
+	p := c.props[i%n]
+	c.search(p)
+	switch block {
+	case 'A':
+		c.runDefaulting(ctx, int(i/n), p)
+	case 'B':
 		c.runAnonymous(ctx, p)
-	case u < c.nA+c.nB+c.nC:
-		p := c.props[u-c.nA-c.nB]
-		c.search(p)
+	case 'C':
 		c.runUnits(ctx, p)
-	default:
-		c.runSink(ctx, u-c.nA-c.nB-c.nC == 1)
+	case 'E':
+		c.runBoxBuilding(ctx, p)
 	}
 }
 
 func (c *check) Describe(u int64) any {
 	n := int64(len(c.props))
-	switch {
-	case u < c.nA:
-		p := c.props[u%n]
-		c.search(p)
-		return map[string]any{"block": "defaulting", "position": posNames[u/n], "property": p.name, "explicit_values": p.values, "spec_initial": p.initial}
-	case u < c.nA+c.nB:
-		return map[string]any{"block": "anonymous-boxes", "property": c.props[u-c.nA].name}
-	case u < c.nA+c.nB+c.nC:
-		p := c.props[u-c.nA-c.nB]
-		c.search(p)
-		return map[string]any{"block": "absolutisation", "property": p.name, "length_templates": p.templates}
-	default:
-		return map[string]any{"block": "ua-sheet-document", "presentational_hints": u-c.nA-c.nB-c.nC == 1}
+	block, i := c.locate(u)
+	if block == 'D' {
+		return map[string]any{"block": "ua-sheet-document", "presentational_hints": i == 1}
 	}
+	p := c.props[i%n]
+	c.search(p)
+	switch block {
+	case 'A':
+		return map[string]any{"block": "defaulting", "position": posNames[i/n], "property": p.name, "explicit_values": p.values, "spec_initial": p.initial}
+	case 'B':
+		return map[string]any{"block": "anonymous-boxes", "property": p.name}
+	case 'C':
+		return map[string]any{"block": "absolutisation", "property": p.name, "length_templates": p.templates}
+	}
+	return map[string]any{"block": "box-building", "property": p.name, "containers": containerDisplays}
 }
 
 func sanitize(s string) string {
